@@ -282,3 +282,86 @@ def run_against(ctx: Ctx) -> bool:
               "`h: Callable[[X, int], X] -> X`) hands back a solution that still mentions the value's private variable (internal error "
               "in the caller) or is rejected although T = X = int fits")
     return True
+
+
+def run_transform(ctx: Ctx) -> bool:
+    """R-C12.7 (function types)  applying a substitution to a function type keeps what identifies it: its comptime arguments.
+
+    `FunctionType.transform` is interpreted on a function-type token with one comptime argument, with a transformer that does not
+    handle the type itself (so it is rebuilt from transformed parts); the constructor is a recorder.  Decided: the rebuilt type is
+    given the transformed comptime arguments (and the parameters and unitary flags of the original) -- otherwise `F.substitute(s)`
+    is not F any more for the type of `foo[5]`, `foo(n: nat @comptime)`: it no longer unifies with itself.
+    """
+    idx = ctx.idx
+    ft = idx.find_class("FunctionType", TY)
+    f = ft.find_method("transform")
+    key = f"{ft.qualname}.transform#keeps-comptime-arguments"
+    if f is None:
+        ctx.undecided("R-C12.7", key, ft.where, "FunctionType.transform not found")
+        return False
+    ps = [a.arg for a in f.node.args.args]
+    carg = Tok("comptime_arg_5", __methods__={"transform": lambda r, a: Tok("transformed(comptime_arg_5)", __ident__=1)}, __ident__=1)
+    ity = Tok("in_ty", __methods__={"transform": lambda r, a: Tok("transformed(in_ty)", __ident__=1)}, __ident__=1)
+    oty = Tok("out_ty", __methods__={"transform": lambda r, a: Tok("transformed(out_ty)", __ident__=1)}, __ident__=1)
+    flags = Tok("flags", __ident__=1)
+    me = Tok("F5", inputs=[Tok("inp", ty=ity, __ident__=1)], output=oty, params=[], comptime_args=[carg], unitary_flags=flags, __classes__=ft.mro(), __ident__=1)
+    tr = Tok("transformer", __methods__={"transform": lambda r, a: None}, __ident__=1)
+    made: list = []
+
+    def h_ctor(nd, e, env):
+        pos = [e.ev(a, env) for a in nd.args]
+        kw = {k.arg: e.ev(k.value, env) for k in nd.keywords if k.arg}
+        names = ["inputs", "output", "params", "comptime_args", "unitary_flags"]
+        for n_, v_ in zip(names, pos):
+            kw.setdefault(n_, v_)
+        made.append(kw)
+        return Tok("rebuilt", **kw)
+
+    env = {ps[0]: me, ps[1]: tr, "FunctionType": h_ctor, "replace": lambda nd, e, env: Tok("inp'", __ident__=1), "cast": lambda nd, e, env: e.ev(nd.args[1], env)}
+    try:
+        PyEval(idx, TY, max_depth=4).run(f.node.body, env)
+    except (Unsupported, Raised) as e:
+        ctx.undecided("R-C12.7", key, f.where, str(e))
+        return False
+    if len(made) != 1:
+        ctx.undecided("R-C12.7", key, f.where, f"{len(made)} function types constructed")
+        return False
+    got = made[0].get("comptime_args")
+    names = [getattr(x, "name", x) for x in got] if isinstance(got, list) else got
+    ok = names == ["transformed(comptime_arg_5)"] and made[0].get("unitary_flags") is flags and made[0].get("params") == []
+    ctx.check(ok, "R-C12.7", key, f.where, {"comptime_args_given_to_the_rebuilt_type": names, "flags_kept": made[0].get("unitary_flags") is flags},
+              "a substitution applied to the type of `foo[5]` (`foo(n: nat @comptime)`) drops its comptime argument: the type no longer unifies "
+              "with itself -- `pick((foo[5], 1), (foo[5], 2))` is rejected although T := tuple[F, int] fits, and a call of such a function value "
+              "crashes in type_check_args")
+    return True
+
+
+def run_flags(ctx: Ctx) -> bool:
+    """R-C12.1 (unitary flags)  two function types that differ only in their unitary flags are not identical.
+
+    `unify` is interpreted on `qubit -> None [Control]` against `qubit -> None [no flags]` (same inputs, output, parameters).
+    `FunctionType` equality compares the flags, so no assignment makes the two identical: unification has to fail.
+    """
+    idx = ctx.idx
+    f = idx.find_func("unify", TY)
+    key = f"{f.qualname}#function-types-differing-in-unitary-flags"
+    ps = [a.arg for a in f.node.args.args]
+    q = Tok("qubit_ty", __class__="OpaqueType", __bases__=("TypeBase",), linear=True, unsolved_vars=set(), __ident__=1)
+    n = Tok("none_ty", __class__="NoneType", __bases__=("TypeBase",), linear=False, unsolved_vars=set(), __ident__=1)
+
+    def fty(name, flags):
+        inp = Tok(f"inp_{name}", ty=q, flags="Inout", __ident__=1)
+        return Tok(name, __class__="FunctionType", __bases__=("ParametrizedTypeBase", "TypeBase"), inputs=[inp], output=n, params=[], args=[Tok("a1", __class__="TypeArg", ty=q), Tok("a2", __class__="TypeArg", ty=n)],
+                   unitary_flags=flags, unsolved_vars=set(), __ident__=1)
+
+    a, b = fty("controllable", "Control"), fty("plain", "NoFlags")
+    env = {ps[0]: a, ps[1]: b, ps[2]: {}, "_unify_args": lambda nd, e, env: e.ev(nd.args[2], env)}
+    try:
+        out = PyEval(idx, TY, max_depth=4).run(f.node.body, env)
+    except (Unsupported, Raised) as e:
+        ctx.undecided("R-C12.1", key, f.where, str(e))
+        return False
+    res = out[1] if out[0] == "return" else out
+    ctx.check(res is None, "R-C12.1", key, f.where, {"left": "qubit -> None [Control]", "right": "qubit -> None [no flags]", "unify_returns": repr(res)},
+              "function types that differ only in their unitary flags unify although they are not identical")
+    return True
